@@ -35,7 +35,7 @@ CONFIG = {
               "cover_with_caching / cover_with_caching_twise, trim_and_resample, complete_partial_configs, every SAT call = Query.sat_propagate "
               "on the configuration's cached state) does not panic and returns ResultWithSample S with twise_ok C n t S = true; "
               "C09_sample_t_wise_sound_complete: equivalently every configuration is a member of Models C n and every valid interaction of "
-              "min(t,n) literals is contained in some configuration. Invariant per node i (Proofs/TwiseNode.v NodeInv): the partial sample "
+              "min(t,n) literals is contained in some configuration. Invariant per REACHABLE node i (Proofs/TwiseNode.v NodeInv, Proofs/TwiseReach.v; Reach = the root and the children of reachable nodes with a non-zero count; the cached SAT calls go through the core shortcut of sat_propagate, which is relative to the root and since F22 ignores dead branches - it is exact for live literals, i.e. at reachable nodes; for EVERY node, reachable or not, the result is Void exactly when the count is 0, so nothing computed inside a dead branch reaches the root): the partial sample "
               "consists of well-shaped configurations over vars(i) that are valid at i (count of i under the configuration positive), whose "
               "cached mark vector is the exact C03 propagation state of a subset (all, if flagged complete) of their literals, and covers "
               "every valid interaction of min(t,|vars(i)|) literals over vars(i); And: zip keeps every child configuration, the cross "
